@@ -113,6 +113,11 @@ func (p *c19) Enumerate(tier string) [][]int32 {
 			}
 		}
 	}
+	for i := range c19AliasScripts {
+		for opt := 0; opt < 2; opt++ {
+			out = append(out, []int32{10, int32(i), int32(opt)})
+		}
+	}
 	// the shipped driver on every corpus script, in separate processes
 	for i := range c19Corpus {
 		out = append(out, []int32{7, 0, int32(i), int32(i % 2), int32(i % 2)})
@@ -454,12 +459,63 @@ func (p *c19) crossProcess(c *verifsim.Chooser, st *Stats, render bool) *Outcome
 	return o
 }
 
+// Aliasing inside the host object.  Whether two members of the object are
+// the same Go map (or slice) or two equal ones is a fact about the host's
+// memory, not about the data: a script must see the same thing either way.
+var c19AliasScripts = []string{
+	`n = 0; foreach k, v in M { foreach k2, v2 in N { n++; } } return n;`,
+	`foreach k, v in M { hv(k); if (k == "b") { foreach j, w in N { hv(j); } } } return string(M) == string(N);`,
+	`x = M; y = N; n = 0; foreach a in keys(x) { foreach b in keys(y) { n = n + 1; } } hv(string(x)); return n;`,
+	`n = 0; foreach i, v in L { foreach j, w in K { n = n + v * w; } } return n;`,
+	`foreach k, v in M { foreach k2, v2 in M { hv(k + k2); } } return len(M);`,
+	`return [len(M), len(N), len(M.d), len(N.d), M.d == N.d, string(M.d)];`,
+}
+
+func c19AliasObject(shared bool) interface{} {
+	inner := func() map[string]interface{} { return map[string]interface{}{"y": 1, "x": 2} }
+	mk := func() map[string]interface{} {
+		return map[string]interface{}{"b": 1, "a": "x", "c": 3, "d": inner()}
+	}
+	list := func() []interface{} { return []interface{}{1, 2, 3} }
+	m, l := mk(), list()
+	if shared {
+		return map[string]interface{}{"M": m, "N": m, "L": l, "K": l}
+	}
+	return map[string]interface{}{"M": m, "N": mk(), "L": l, "K": list()}
+}
+
+func (p *c19) aliasing(c *verifsim.Chooser, st *Stats, render bool) *Outcome {
+	o := &Outcome{}
+	text := c19AliasScripts[c.Intn(len(c19AliasScripts))]
+	opt := c.Intn(2) == 0
+	setDesc("aliasing inside the host object")
+	o.Digest.Str("alias" + text)
+	o.Nontrivial = true
+	st.fault("aliased-host-values")
+	var obs [2]*c19Obs
+	for i, shared := range []bool{false, true} {
+		shared := shared
+		cs := &c19Case{text: text, opt: opt, objs: []func() interface{}{func() interface{} { return c19AliasObject(shared) }, func() interface{} { return c19AliasObject(shared) }}, names: []string{"n", "x", "y"}}
+		obs[i] = p.execute(cs, &verifsim.OrderPolicy{Kind: verifsim.OrdAsc})
+	}
+	if render {
+		o.Sample = map[string]interface{}{"mode": "aliasing inside the host object", "script": text, "two equal maps": obs[0].results, "one map twice": obs[1].results}
+	}
+	if what, det := obs[0].diff(obs[1]); what != "" {
+		o.violate("C19/alias-dependent", what, "the %s differs between an object whose members M and N (L and K) are two equal maps (slices) and one in which they are the same map (slice): %s\nscript: %s", what, det, text)
+	}
+	return o
+}
+
 func (p *c19) Run(c *verifsim.Chooser, st *Stats, render bool) *Outcome {
 	o := &Outcome{}
 	cs := &c19Case{}
-	mode := []int{0, 1, 0, 0, 0, 0, 0, 2, 0, 0}[c.Intn(10)]
+	mode := []int{0, 1, 0, 0, 0, 0, 0, 2, 0, 0, 3}[c.Intn(11)]
 	if mode == 2 {
 		return p.crossProcess(c, st, render)
+	}
+	if mode == 3 {
+		return p.aliasing(c, st, render)
 	}
 	if mode == 1 {
 		cs.text = c19Corpus[c.Intn(len(c19Corpus))]
